@@ -120,3 +120,21 @@ package main
 
 //@ func SignLocator property C07
 //@   calls keepclient.SignLocator#1: requires $0 == blobLocator && $1 == apiToken && $2 == expiry && $3 == arvados.Duration.Duration(cluster.Collections.BlobSigningTTL) && string($4) == cluster.Collections.BlobSigningKey
+
+// ---------------------------------------------------- C06: index completeness
+// The terminating blank line is written only after every selected volume
+// indexed without error.
+//@ func router.isSystemAuth trusted
+//@   modifies nothing
+//@ func RRVolumeManager.Lookup trusted
+//@   modifies nothing
+//@ iface Volume.IndexTo
+//@   modifies ghost:written
+//@ func router.handleIndex property C06
+//@   ghost bad bool = false
+//@   ghost n int = 0
+//@   calls Volume.IndexTo#1: requires $1 == iface(resp) || true
+//@   calls Volume.IndexTo#1: set bad = bad || $r != nil
+//@   calls Volume.IndexTo#1: set n = n + 1
+//@   loop 1: invariant !bad && n == $i && len(vols) == $n
+//@   calls ResponseWriter.Write#1: requires !bad && n == len(vols) && string($0) == "\n"
